@@ -268,6 +268,7 @@ def check_case(ctx, case, nsample=3000):
             inter = o.buffer(1.05 * d).intersection(block).intersection(mask)
             if any(g.geom_type == 'LineString' and not g.is_empty for g in getattr(inter, 'geoms', [inter])):
                 drawn.append(i)
+    n = max(n, 0)       # Python's range() of a negative count is empty: no contour turn at all
     req = {'op': 'c07.toolpath', 'tree': tree(0), 'n': n, 'drawn': drawn, 'w': q(w), 'h': q(h), 'd': q(d)}
     # ---- measurements on the real yields (bounded: a pathological output must not hang the check)
     nvert = sum(a.shape[1] for a in yields if a.ndim == 2)
